@@ -232,4 +232,17 @@ PROPS = {
         "assumptions": ["'refused loudly' = an error or a panic, anything but Ok with wrong bytes; for a packet obtained by decoding only an error is acceptable"],
         "timeout": {"quick": 900, "thorough": 7200},
     },
+    "C11": {
+        "level_text": "Lean theorems on the model of binrw_write_codepage_string / strip_trailing_nul, for every width and every byte string: a fixed-width field is exactly N bytes, namely the encoded text truncated to N followed by NUL bytes only; a variable-width field is NUL-padded to a multiple of 4 and never exceeds its maximum; the reader returns the bytes up to the first NUL, never a NUL, and write-then-read gives the text cut to the width; the regenerated layouts are re-checked (decide): every fixed text reads and writes the same width without alignment, every variable text is 4-aligned with a maximum divisible by 4. The terminator clause is proved in its partial form (the field ends in NUL whenever the encoded text is shorter than the field) next to kernel-checked negation witnesses for the full statement, which is false on the current code for MST/MSX/MSL/MTC (recorded findings). Tied by correspondence on the real writer helper for every width x text lengths 0..2N x alignment, and an oracle over every text field of every text-bearing kind (29 fields, located through the regenerated layouts) x lengths 0..2N incl. multi-byte and multi-codepage text x both modes, with NUL bytes planted inside fields for the read side.",
+        "level_note": "Trusted: as C01. The encoded bytes of a text (to_lossy_bytes) are C10's subject; C11 is about what happens to those bytes inside a field. The oracle also fails if a text field appears in the source without a builder in the harness, so a new field cannot go untested silently.",
+        "technique": "Lean 4 proof (list lemmas on truncate/pad/strip; decide on regenerated layouts) with kernel-checked negation witnesses + translator + differential correspondence + typed-builder oracle",
+        "translators": ["packets"],
+        "trusted": [
+            "translate/packets.py: which field uses which width, raw flag and alignment",
+            "hand-modelled, tied by the correspondence run only: binrw_write_codepage_string, strip_trailing_nul, the three text readers",
+        ],
+        "rule": "str.write / str.read lines on the real helper; c11.field evaluations are oracle-only (typed packets with text of every length, byte range of the field inside the real frame); distinct = distinct op text",
+        "assumptions": ["multi-codepage text is encoded by to_lossy_bytes before it reaches the field (C10)"],
+        "timeout": {"quick": 900, "thorough": 7200},
+    },
 }
